@@ -86,12 +86,188 @@ static int determinism(uint64_t seed, int per_driver) {
   return bad ? 2 : 0;
 }
 
+int run_fidelity(uint64_t seed, int n);
 int run(const std::string &name, int argc, char **argv, uint64_t seed, int jobs) {
   (void)jobs;
   int n = argc >= 1 ? atoi(argv[0]) : 0;
   if (name == "oracle") return oracle(seed, n ? n : 3000);
   if (name == "determinism") return determinism(seed, n ? n : 40);
+  if (name == "fidelity") return run_fidelity(seed, n ? n : 300);
   fprintf(stderr, "unknown selftest %s\n", name.c_str());
   return 2;
 }
+}  // namespace selftest
+
+// ===================================================================== fidelity of the kernel stub
+// The real /repo binary (guard off) is run on the real kernel for the subset of plans the OS can
+// realise without fault injection, and compared with the simulated run of the same plan.
+#include <dirent.h>
+#include <fcntl.h>
+#include <signal.h>
+#include <sys/stat.h>
+#include <sys/time.h>
+#include <sys/types.h>
+namespace selftest {
+
+static std::string g_real;
+static bool build_real() {
+  mkdir("build", 0755); mkdir("build/real", 0755);
+  g_real = "build/real/lbzip2";
+  std::string cmd = "gcc -O2 -DNDEBUG -w -D_XOPEN_SOURCE=700 -D_FILE_OFFSET_BITS=64 -DPACKAGE_NAME='\"lbzip2\"' -DPACKAGE_VERSION='\"devel\"' /repo/src/*.c -o build/real/lbzip2 -lpthread 2>&1";
+  if (const char *r = getenv("VERIF_REPO")) { cmd = std::string("gcc -O2 -DNDEBUG -w -D_XOPEN_SOURCE=700 -D_FILE_OFFSET_BITS=64 -DPACKAGE_NAME='\"lbzip2\"' -DPACKAGE_VERSION='\"devel\"' ") + r + "/src/*.c -o build/real/lbzip2 -lpthread 2>&1"; }
+  return system(cmd.c_str()) == 0;
+}
+struct RealResult { int kind, code; Bytes out, err; std::map<std::string, std::string> listing; };
+
+static std::string rm_rf(const std::string &d) { return "rm -rf '" + d + "'"; }
+static Bytes slurp(const std::string &p) { Bytes b; FILE *f = fopen(p.c_str(), "rb"); if (!f) return b; char buf[65536]; size_t n; while ((n = fread(buf, 1, sizeof buf, f)) > 0) b.append(buf, n); fclose(f); return b; }
+
+static std::string describe_node(int type, const Bytes &data, unsigned mode, int64_t ms, int64_t mn, bool with_meta) {
+  char b[200];
+  snprintf(b, sizeof b, "type=%d size=%zu hash=%016llx", type, type == sim::T_DIR ? 0 : data.size(), (unsigned long long)(type == sim::T_DIR ? 0 : sim::hash_bytes(data.data(), data.size())));
+  std::string s = b;
+  if (with_meta) { snprintf(b, sizeof b, " mode=%o mtime=%lld.%09lld", mode & 0777, (long long)ms, (long long)mn); s += b; }
+  return s;
+}
+
+static RealResult run_real(const std::vector<std::string> &argv, const std::vector<FileSpec> &files, const Bytes &in, bool ign_pipe, int64_t close_after, const std::string &dir) {
+  RealResult R; R.kind = -1; R.code = 0;
+  if (system((rm_rf(dir) + " && mkdir -p '" + dir + "'").c_str())) return R;
+  for (auto &f : files) {
+    std::string p = dir + "/" + f.name;
+    if (f.type == sim::T_DIR) mkdir(p.c_str(), 0755);
+    else if (f.type == sim::T_LNK) { if (symlink(f.data.c_str(), p.c_str())) {} }
+    else {
+      FILE *o = fopen(p.c_str(), "wb"); if (!o) continue; fwrite(f.data.data(), 1, f.data.size(), o); fclose(o);
+      chmod(p.c_str(), f.mode & 07777);
+      struct timespec ts[2] = {{(time_t)f.atime_s, (long)f.atime_ns}, {(time_t)f.mtime_s, (long)f.mtime_ns}};
+      utimensat(AT_FDCWD, p.c_str(), ts, 0);
+      for (unsigned k = 0; k < f.nlink_extra; k++) { if (link(p.c_str(), (p + ".lnk" + std::to_string(k)).c_str())) {} }
+    }
+  }
+  std::string inp = dir + "/.stdin", outp = dir + "/.stdout", errp = dir + "/.stderr";
+  { FILE *o = fopen(inp.c_str(), "wb"); fwrite(in.data(), 1, in.size(), o); fclose(o); }
+  int pfd[2] = {-1, -1};
+  if (close_after >= 0 && pipe(pfd)) return R;
+  char cwd[4096]; if (!getcwd(cwd, sizeof cwd)) return R;
+  std::string exe = std::string(cwd) + "/" + g_real;
+  pid_t pid = fork();
+  if (pid == 0) {
+    if (chdir(dir.c_str())) _exit(125);
+    int fi = open(".stdin", O_RDONLY); dup2(fi, 0);
+    if (close_after >= 0) { dup2(pfd[1], 1); close(pfd[0]); close(pfd[1]); } else { int fo = open(".stdout", O_WRONLY | O_CREAT | O_TRUNC, 0600); dup2(fo, 1); }
+    int fe = open(".stderr", O_WRONLY | O_CREAT | O_TRUNC, 0600); dup2(fe, 2);
+    signal(SIGPIPE, ign_pipe ? SIG_IGN : SIG_DFL);
+    std::vector<char *> av; av.push_back((char *)"lbzip2");
+    for (auto &a : argv) av.push_back((char *)a.c_str());
+    av.push_back(nullptr);
+    execv(exe.c_str(), av.data());
+    _exit(126);
+  }
+  if (close_after >= 0) {
+    close(pfd[1]);
+    char buf[4096]; int64_t got = 0;
+    while (got < close_after) { ssize_t n = read(pfd[0], buf, (size_t)std::min<int64_t>(sizeof buf, close_after - got)); if (n <= 0) break; R.out.append(buf, n); got += n; }
+    close(pfd[0]);
+  }
+  int st = 0; waitpid(pid, &st, 0);
+  if (WIFEXITED(st)) { R.kind = sim::X_EXIT; R.code = WEXITSTATUS(st); } else { R.kind = sim::X_SIGNAL; R.code = WTERMSIG(st); }
+  if (close_after < 0) R.out = slurp(outp);
+  R.err = slurp(errp);
+  DIR *d = opendir(dir.c_str());
+  if (d) {
+    while (struct dirent *e = readdir(d)) {
+      std::string n = e->d_name;
+      if (n == "." || n == ".." || n == ".stdin" || n == ".stdout" || n == ".stderr") continue;
+      struct stat sb; std::string p = dir + "/" + n;
+      if (lstat(p.c_str(), &sb)) continue;
+      int type = S_ISDIR(sb.st_mode) ? sim::T_DIR : S_ISLNK(sb.st_mode) ? sim::T_LNK : sim::T_REG;
+      Bytes data; if (type == sim::T_REG) data = slurp(p); else if (type == sim::T_LNK) { char b[4096]; ssize_t l = readlink(p.c_str(), b, sizeof b); data.assign(b, l > 0 ? l : 0); }
+      R.listing[n] = describe_node(type, data, sb.st_mode, sb.st_mtim.tv_sec, sb.st_mtim.tv_nsec, type == sim::T_REG);
+    }
+    closedir(d);
+  }
+  if (system(rm_rf(dir).c_str())) {}
+  return R;
+}
+
+static int fidelity(uint64_t seed, int n) {
+  if (!build_real()) { printf("selftest-fidelity: cannot build the real binary\n"); return 2; }
+  int bad = 0, compared = 0, skipped = 0;
+  char tmpl[] = "/var/tmp/lbzsim-fid-XXXXXX";
+  if (!mkdtemp(tmpl)) return 2;
+  std::string base = tmpl;
+  // (A) FILE operand scenarios from the C17 and C18 generators
+  for (const char *prop : {"C17", "C18"}) {
+    Driver *d = find_driver(prop);
+    for (int i = 0; i < n; i++) {
+      Case c = d->gen(case_seed(seed ^ 0xF1DE, i), 0);
+      bool skip = false;
+      for (auto &f : c.files) if (f.noread) skip = true;      // we run as root: EACCES cannot be produced on the real file system
+      for (auto &f : c.files) if (f.name.empty() || f.name[0] == '.') skip = true;
+      if (skip) { skipped++; continue; }
+      RunCfg r = c.runs[0];
+      Ctx ctx;
+      sim::Result s = exec(r, Bytes(), c.files, ctx);
+      RealResult real = run_real(r.argv, c.files, Bytes(), false, -1, base + "/w");
+      compared++;
+      std::string why;
+      if (s.kind != real.kind || s.code != real.code) why = "status: sim " + props::cls_of_exit(s) + " real kind=" + std::to_string(real.kind) + " code=" + std::to_string(real.code);
+      else if (s.err.empty() != real.err.empty()) why = "stderr emptiness differs: sim \"" + s.err.substr(0, 150) + "\" real \"" + real.err.substr(0, 150) + "\"";
+      else if (s.out != real.out) why = "stdout differs";
+      else {
+        std::map<std::string, std::string> sl;
+        for (auto &kv : s.world.dir) { const sim::Inode &in = s.world.inodes[kv.second]; sl[kv.first] = describe_node(in.type, in.data, in.mode, in.mtime_s, in.mtime_ns, in.type == sim::T_REG); }
+        if (sl != real.listing) {
+          why = "directory listing differs:";
+          for (auto &kv : sl) if (!real.listing.count(kv.first) || real.listing[kv.first] != kv.second) why += "\n    sim  " + kv.first + " " + kv.second;
+          for (auto &kv : real.listing) if (!sl.count(kv.first) || sl[kv.first] != kv.second) why += "\n    real " + kv.first + " " + kv.second;
+        }
+      }
+      if (!why.empty()) { bad++; printf("FIDELITY MISMATCH %s case %d (%s | %s): %s\n", prop, i, c.data_desc.c_str(), r.brief().c_str(), why.c_str()); if (bad > 10) break; }
+    }
+  }
+  // (B) filters: healthy, and with the stdout reader going away early (SIGPIPE default / ignored)
+  for (int i = 0; i < n / 2; i++) {
+    Rng rng(case_seed(seed ^ 0xF117E5, i));
+    int mode = (int)rng.below(3);
+    Bytes plain = gen::random_bytes(rng, 200000 + rng.below(400000), mode == 2 ? 256 : 4), in;
+    RunCfg r;
+    if (mode == 0) { r.argv = {"-n", "2", "-1"}; in = plain; }
+    else if (mode == 1) { r.argv = {"-n", "2", "-d"}; in = bz::libbz2_encode(plain, 1); }
+    else { r.argv = {"-n", "2", "-cdf"}; in = plain; if (in[0] == 'B') in[0] = 'b'; }
+    r.sched = random_sched(rng);
+    bool ign = rng.below(2);
+    int64_t cut = rng.below(3) == 0 ? -1 : (int64_t)rng.below(3000);
+    r.ign_pipe = ign; r.out_close_after = cut;
+    Ctx ctx;
+    sim::Result s = exec(r, in, {}, ctx);
+    RealResult real = run_real(r.argv, {}, in, ign, cut, base + "/w");
+    compared++;
+    std::string why;
+    if (s.kind != real.kind || s.code != real.code) why = "status: sim " + props::cls_of_exit(s) + " real kind=" + std::to_string(real.kind) + " code=" + std::to_string(real.code);
+    else if (cut < 0 && s.out != real.out) why = "stdout differs";
+    else if (s.err.empty() != real.err.empty()) why = "stderr emptiness differs: sim \"" + s.err.substr(0, 100) + "\" real \"" + real.err.substr(0, 100) + "\"";
+    if (!why.empty()) { bad++; printf("FIDELITY MISMATCH filter case %d (%s, reader closes after %lld, SIGPIPE %s): %s\n", i, r.brief().c_str(), (long long)cut, ign ? "ignored" : "default", why.c_str()); }
+  }
+  // (C) order in which Linux runs the handlers of simultaneously pending signals (the simulator assumes: highest number first)
+  {
+    static volatile int order[8], no;
+    struct sigaction sa; memset(&sa, 0, sizeof sa);
+    sa.sa_handler = [](int s) { if (no < 8) order[no++] = s; };
+    sigset_t set, old; sigemptyset(&set);
+    for (int s : {SIGINT, SIGUSR1, SIGUSR2, SIGTERM}) { sigaction(s, &sa, nullptr); sigaddset(&set, s); }
+    sigprocmask(SIG_BLOCK, &set, &old);
+    for (int s : {SIGUSR2, SIGINT, SIGTERM, SIGUSR1}) kill(getpid(), s);
+    sigprocmask(SIG_SETMASK, &old, nullptr);
+    bool ok = no == 4 && order[0] == SIGTERM && order[1] == SIGUSR2 && order[2] == SIGUSR1 && order[3] == SIGINT;
+    compared++;
+    if (!ok) { bad++; printf("FIDELITY MISMATCH: handler order of simultaneously pending signals is %d %d %d %d, the simulator assumes %d %d %d %d\n", order[0], order[1], order[2], order[3], SIGTERM, SIGUSR2, SIGUSR1, SIGINT); }
+    for (int s : {SIGINT, SIGUSR1, SIGUSR2, SIGTERM}) signal(s, SIG_DFL);
+  }
+  if (system(rm_rf(base).c_str())) {}
+  printf("selftest-fidelity: %d scenarios compared with the real binary on the real kernel (%d skipped: need a non-root user), mismatches=%d\n", compared, skipped, bad);
+  return bad ? 1 : 0;
+}
+int run_fidelity(uint64_t seed, int n) { return fidelity(seed, n); }
 }  // namespace selftest
